@@ -44,3 +44,5 @@ def run(ctx):
     # the declared dimension) is what distances are computed from afterwards
     from props import C18
     C18.rules(ctx)
+    import rules as _rules
+    ctx.floor('R-SETTER', 'option setters', _rules.r_setters(ctx, ('reader::QueryBuilder',)), 3)
